@@ -98,7 +98,7 @@ func (valdec *structDecoder) decodeObject(dec *Decoder, p interface{}) {
 
 func (valdec *structDecoder) decodeMapAsObject(dec *Decoder, p interface{}) {
 	ptr := reflect2.PtrOf(p)
-	count := dec.ReadInt()
+	count := dec.ReadCount()
 	dec.AddReference(p)
 	for i := 0; i < count; i++ {
 		var name string
